@@ -95,6 +95,9 @@ def run(ctx):
         common.leanchecker(ctx, ['Smtb.Properties.C14'])
 
 
+REPLAY_KINDS = ('slow', 'stress', 'corr')
+
+
 def replay(ctx, data):
     common.go_build(['corrjob', 'c14stress', 'c14cli'])
     common.lake_build(['driver'])
@@ -108,7 +111,7 @@ def replay(ctx, data):
         print(out[-800:])
         return 0 if ok else 1
     if data.get('kind') == 'corr':
-        n, mism, _ = common.corr(ctx, 'replay', data['go_cmd'], data['go_args'], data['driver_args'])
+        n, mism, _ = common.corr(ctx, 'replay', data['go_cmd'], data['go_args'], data['driver_args'], ok_exit=(0, 1, 3, 66))
         print('REPLAY:', 'reproduces ' + str(mism[0])[:500] if mism else 'no longer fails')
         return 1 if mism else 0
     print(str(data)[:1500])
